@@ -6,9 +6,48 @@ VERIF = os.path.dirname(os.path.dirname(os.path.abspath(__file__)))
 
 # id -> (built?, technique, level text, level note, design ref)
 T = {
- "C01": (True, "reference-model monitor (M-scale∘M-prop) over generated keyframe sets evaluated on the real derive/builder timelines",
-         "Runtime monitoring: every run builds thousands (quick) to hundreds of thousands (thorough) of real timelines through the public builder from generated keyframe sets and compares every evaluated property with an independent executable model of CSS keyframe interpolation; plus an exhaustively enumerated small scope. Held = no disagreement on the executions observed.",
+ "C01": (True, "reference-model monitor (M-scale∘M-prop) over generated keyframe sets evaluated on real derive/builder timelines",
+         "Runtime monitoring: thousands (quick) to hundreds of thousands (thorough) of real timelines are built through the public builder from generated keyframe sets and every evaluated property is compared with an independent executable model of CSS keyframe interpolation; a small scope is enumerated exhaustively. Held = no disagreement on the executions observed.",
          "Trusts rustc/std f32 arithmetic; easing curves are uninterpreted (C13); timing restricted to the dyadic exact regime (C03 covers inexact timing).", "§4 C01"),
+ "C02": (True, "analytic-oracle monitor at exact keyframe/boundary instants in the dyadic exact regime",
+         "Runtime monitoring of real timelines at times that map exactly onto every keyframe position of every property in every cycle, onto the delay, the end of each forward pass and times at/after the total duration; oracle = the keyframe / 0 % / 100 % / terminal value (ints exact, floats <= 4 ulp, terminal bits constant).",
+         "Only configurations whose f32 intermediates are exact are generated; ambiguous cases (same property twice at a position) are never judged.", "§4 C02"),
+ "C03": (True, "exhaustive/dense sweep of the f32 time axis against an f64 model with boundary bands + bit-exact dyadic grid relations",
+         "Runtime monitoring of TimeScale::get_position and of Timeline::update on a linear probe over every f32 bit pattern (thorough) / stride-61 + all floats within 4096 ulp of each phase boundary (quick) for fixed and random timing configurations; bit-exact comparison, periodicity and mirror relations on a dyadic grid; metadata accessors tied to observed behaviour.",
+         "Inside a band of about one ulp around a wrap / turning point / end instant either side is accepted (counted).", "§4 C03"),
+ "C04": (True, "relational monitor over exhaustively enumerated and random operation histories (before/after set_state snapshots, twin animator)",
+         "Runtime monitoring: all histories to depth 5 (quick) / 7 (thorough) over a 10-operation alphabet on a pool of animator configurations plus random long histories with probe suffixes; current_values must be bit-identical immediately before and after every set_state, and a twin that never receives set_state(current) must follow the identical trajectory.",
+         "Model-free; bit equality identifies +0.0 and -0.0; values are f32-representable.", "§4 C04"),
+ "C05": (True, "history + executable model (M-anim with twin timelines) compared after every operation",
+         "Runtime monitoring: the same exploration engine as C04; after every operation current_state, current_values (bit-exact) and is_ended are compared with the M-anim reference model of blend/pause/resume; the hook snapshot is logged as a diagnostic only.",
+         "M-anim delegates timeline evaluation to twin instances of the real timelines (C09/C10/C12 decide those).", "§4 C05"),
+ "C06": (True, "relational monitor between real animators over all step compositions of each interval",
+         "Runtime monitoring: every composition of each inter-transition interval (2^(m-1) schedules, m <= 9 quick / 12 thorough), with and without interleaved zero-length advances, must give values, state and is_ended bit-identical to the single-step run; inexact f32 splits are compared against an envelope of single-step runs.",
+         "Grid units convert to Duration exactly; envelope cases that straddle a discontinuity are counted as inconclusive_band.", "§4 C06"),
+ "C07": (True, "history monitor with totals computed from the configuration; terminal values from twin timelines",
+         "Runtime monitoring of is_ended and current_values across advances that land exactly on, just before, just after and far beyond the total duration (on- and off-grid configurations, merged and infinite components), followed by 50 further advances: exactness, monotonicity, never-ended-when-infinite, values resting at the terminal values.",
+         "Off-grid: 2 ulp band at the end instant.", "§4 C07"),
+ "C08": (True, "sentinel bit-pattern monitor on targets and animator values",
+         "Runtime monitoring: targets pre-filled with random bit patterns (NaN payloads included) are compared bit-for-bit after update in every phase for every field outside the animated-and-keyframed set (excluded fields, un-keyframed properties, empty and merged timelines), and across animator histories.",
+         "The animated-and-keyframed set is computed from the generated specification.", "§4 C08"),
+ "C09": (True, "relational monitor across query orders, clones, prior target contents and start_with sequences (bit-exact)",
+         "Runtime monitoring: each generated timeline is evaluated at ~64 times in ascending, random, backward and repeated order, into sentinel-filled and previously-written targets and through clones taken before/after; every result must be bit-identical to the first; Debug digest unchanged; only the last start_with counts and metadata is unaffected.",
+         "Digest clause assumes derive(Debug) shows all state.", "§4 C09"),
+ "C10": (True, "twin comparison (with/without start_with) plus M-prop for the blended stretch",
+         "Runtime monitoring of a timeline and its start_with twin over dense times in all phases: exactly v up to the delay, model-conform blend only before the property's first keyframe after 0 % in the first forward pass, bit-identical everywhere else (reverse pass, later cycles, after the end).",
+         "Two keyframes of one property at 0 % are never judged.", "§4 C10"),
+ "C11": (True, "relational monitor over all/random insertion-order permutations against the ascending-order twin (bit-exact)",
+         "Runtime monitoring: every insertion order for n <= 5 (quick) / 6 (thorough) keyframes, random orders beyond, compared bit-for-bit with the ascending-order twin at ~100 times and on metadata.",
+         "The ascending twin's own correctness is C01's subject.", "§4 C11"),
+ "C12": (True, "relational monitor: merged vs in-order application of the real components; aggregate accessors vs configuration",
+         "Runtime monitoring of MergedTimeline over lists of 0..4 real components (overlapping/disjoint, heterogeneous timing, extreme repeat counts): update equals ordered overlay bit-for-bit, order-independence when disjoint, start_with reaches all, delay=min, duration=max, repeat=max with Infinite on top, common cycle or none, single == component, empty touches nothing.",
+         "Components are real timelines (their own evaluation is C01).", "§4 C12"),
+ "C13": (True, "exhaustive/dense sweep of calc over the f32 values of [0,1] with analytic clauses and a published control-point table",
+         "Runtime monitoring of all 29 easings over every f32 in [0,1] (thorough) / stride 257 + 65 536 floats at each end (quick): exact endpoints, range, monotonicity, Linear identity, In/Out and InOut mirrors, Custom as given, and the definition against the published timing function. Known finding F3 is matched by exact signature per variant.",
+         "Trusted: the published control points embedded in the harness; 1e-6 float slack.", "§4 C13"),
+ "C14": (True, "exhaustive 8-bit sweep + boundary/random sweeps of Lerp with analytic oracle under catch_unwind",
+         "Runtime monitoring of Lerp::lerp: all 65 536 pairs of u8 and of i8 over a dense x grid, boundary and random f32-representable pairs for the wider types, a strided full x axis for boundary pairs (thorough), glam vectors against scalar lerp; ends exact, lerp(a,a,x)=a, between, monotone, nearest, no panic.",
+         "Wide integer types: 2 ulp32 slack for f32 arithmetic.", "§4 C14"),
 }
 PENDING = "check not built yet in this round (planned in DESIGN.md §4); not claimed until its monitor exists"
 
